@@ -67,6 +67,8 @@ def mk_replay(name, which):
         cls = re.sub(r'\d+', 'N', pr[0])[:70] if pr else ''
         if pr and 'not strictly earlier' in pr[0]:
             cls = 'forward-reference'
+        elif pr and 'the last step is not computed from' in pr[0]:
+            cls = 'last-step-not-the-answer'
         elif pr and 'is numbered' in pr[0]:
             cls = 'numbering'
         elif pr and 'internal error' in pr[0]:
